@@ -234,10 +234,14 @@ func check(args []string) int {
 		v violation
 		p part
 	}
-	var fresh []pending
+	var fresh []string // classes not listed as known findings, in order of discovery
+	cands := map[string][]pending{}
 	seenKey := map[string]bool{}
 	for i, v := range merged.Violations {
 		if seenKey[v.Key] {
+			if _, isFresh := cands[v.Key]; isFresh && len(cands[v.Key]) < 12 {
+				cands[v.Key] = append(cands[v.Key], pending{v, viols[i]})
+			}
 			continue
 		}
 		seenKey[v.Key] = true
@@ -250,7 +254,8 @@ func check(args []string) int {
 			}
 		}
 		if !matched {
-			fresh = append(fresh, pending{v, viols[i]})
+			fresh = append(fresh, v.Key)
+			cands[v.Key] = []pending{{v, viols[i]}}
 		}
 	}
 	keys := make([]string, 0, len(knownHit))
@@ -264,32 +269,43 @@ func check(args []string) int {
 	unrepro := 0
 	reported := 0
 	_ = os.MkdirAll(filepath.Join(verifRoot(), "replays"), 0o755)
-	for _, f := range fresh {
-		art := map[string]any{"property": id, "check": f.p.ID, "race_build": f.p.Race, "key": f.v.Key, "message": f.v.Message, "replay": f.v.Replay}
-		b, _ := json.MarshalIndent(art, "", " ")
-		sum := sha256.Sum256(append([]byte(f.v.Key), f.v.Replay...))
-		path := filepath.Join(verifRoot(), "replays", fmt.Sprintf("%s-%x.json", id, sum[:6]))
-		if err := os.WriteFile(path, b, 0o644); err != nil {
-			fmt.Fprintln(os.Stderr, "verif: cannot write replay:", err)
-		}
-		// a violation is only reported if its recorded case fails again, five times out of five
-		ok := true
-		for k := 0; k < 5; k++ {
-			out, err := runCmd(bins[f.p.Race], 10*time.Minute, nil, "replay", f.p.ID, path)
-			if err == nil || !bytes.Contains(out, []byte("REPRODUCED")) {
-				ok = false
-				fmt.Fprintf(os.Stderr, "UNREPRODUCIBLE: property=%s key=%s replay %d/5 did not fail: %.500s\n", id, f.v.Key, k+1, out)
-				break
+	for _, key := range fresh {
+		// A class is reported with the first of its recorded cases that fails again five times out of five.
+		// Explorations record several schedules for a class raised by the race detector (whether the detector
+		// reports a race on a schedule depends on its bounded access history, see vsched.Explore).
+		done := false
+		var lastOut []byte
+		for _, f := range cands[key] {
+			art := map[string]any{"property": id, "check": f.p.ID, "race_build": f.p.Race, "key": f.v.Key, "message": f.v.Message, "replay": f.v.Replay}
+			b, _ := json.MarshalIndent(art, "", " ")
+			sum := sha256.Sum256(append([]byte(f.v.Key), f.v.Replay...))
+			path := filepath.Join(verifRoot(), "replays", fmt.Sprintf("%s-%x.json", id, sum[:6]))
+			if err := os.WriteFile(path, b, 0o644); err != nil {
+				fmt.Fprintln(os.Stderr, "verif: cannot write replay:", err)
 			}
+			ok := true
+			for k := 0; k < 5; k++ {
+				out, err := runCmd(bins[f.p.Race], 10*time.Minute, nil, "replay", f.p.ID, path)
+				if err == nil || !bytes.Contains(out, []byte("REPRODUCED")) {
+					ok = false
+					lastOut = out
+					break
+				}
+			}
+			if !ok {
+				_ = os.Remove(path)
+				continue
+			}
+			done = true
+			reported++
+			fmt.Printf("VIOLATION property=%s replay=%s\n", id, path)
+			fmt.Printf("  class: %s\n  %s\n", f.v.Key, strings.ReplaceAll(firstLines(f.v.Message, 12), "\n", "\n  "))
+			break
 		}
-		if !ok {
+		if !done {
 			unrepro++
-			_ = os.Remove(path)
-			continue
+			fmt.Fprintf(os.Stderr, "UNREPRODUCIBLE: property=%s key=%s none of the %d recorded cases failed again five times out of five: %.500s\n", id, key, len(cands[key]), lastOut)
 		}
-		reported++
-		fmt.Printf("VIOLATION property=%s replay=%s\n", id, path)
-		fmt.Printf("  class: %s\n  %s\n", f.v.Key, strings.ReplaceAll(firstLines(f.v.Message, 12), "\n", "\n  "))
 	}
 
 	wall := time.Since(start).Seconds()
@@ -364,7 +380,7 @@ func firstLines(s string, n int) string {
 
 func runCmd(bin string, timeout time.Duration, env []string, args ...string) ([]byte, error) {
 	cmd := exec.Command(bin, args...)
-	cmd.Env = append(append(os.Environ(), "GORACE=halt_on_error=0 exitcode=0"), env...)
+	cmd.Env = append(append(os.Environ(), "GORACE=halt_on_error=0 exitcode=0 suppress_equal_stacks=0 suppress_equal_addresses=0"), env...)
 	var out, errb bytes.Buffer
 	cmd.Stdout = &out
 	cmd.Stderr = &errb
